@@ -5,6 +5,7 @@
 mod composer_script;
 mod dispatch;
 mod kernels;
+mod kzg;
 mod protocol;
 mod util;
 mod widgets;
@@ -22,6 +23,7 @@ fn main() {
         "composer" => composer_script::run(&text),
         "widgets" => widgets::run(&text),
         "kernels" => kernels::run(&text),
+        "kzg" => kzg::run(&text),
         "protocol" => protocol::run(&text),
         m => {
             eprintln!("unknown mode {m}");
